@@ -146,7 +146,7 @@ def split(data, sizes):
     return out
 
 
-def standard_entry(chunks, strategies, gap=0, order=None, extra_header=0):
+def standard_entry(chunks, strategies, gap=0, order=None, extra_header=0, lead=None):
     """chunks: list of byte strings (the content split); order: storage order of the blocks (a permutation of their indices; the
     block table stays in content order and carries each block's offset); -> (entry bytes, used strategies)"""
     nb = len(chunks)
@@ -158,7 +158,8 @@ def standard_entry(chunks, strategies, gap=0, order=None, extra_header=0):
         blk, u = pack_block(c, s)
         used.append(u)
         packed.append(blk)
-    blocks = b""
+    # lead: bytes in front of the first stored block (a stale copy of a block, or filler): the table says where each block is
+    blocks = lead or b""
     offs = [0] * nb
     for i in (order if order is not None else range(nb)):
         offs[i] = len(blocks)
